@@ -20,7 +20,7 @@ import (
 type FragResult struct {
 	Callers, Chunks, SplitPrefixes, Bytes int
 	PreludeCut                            int // bytes of the broken session's last frame that arrived before end of stream
-	BlockedWriter, Reopened               bool
+	BlockedWriter, Reopened, PokedOpen    bool
 	Shape                                 string
 	Bad                                   string // a caller completed with something else than its own frame
 	Stall                                 string // reader established not consuming / not delivering
@@ -74,7 +74,7 @@ func readerParkedOnLock() string {
 // Verdicts are logical: (1) bytes stay unread while the read loop is parked on
 // a mutex in two dumps; (2) every byte of every response was read, the read
 // loop is back in Read waiting for more, and a caller still has not returned.
-func FragmentTrial(n int, seed int64, blockedWriter, reopen bool) *FragResult {
+func FragmentTrial(n int, seed int64, blockedWriter, reopen, pokeOpen bool) *FragResult {
 	res := &FragResult{Callers: n, BlockedWriter: blockedWriter, Reopened: reopen}
 	rng := rand.New(rand.NewSource(seed))
 	a := NewAdapterLeg()
@@ -239,6 +239,22 @@ func FragmentTrial(n int, seed int64, blockedWriter, reopen bool) *FragResult {
 		}
 	}
 
+	if pokeOpen {
+		// an "ensure open" helper calls Open() on the already open transport
+		// while the requests are in flight (ALREADY_OPEN is the expected answer);
+		// it must not come between the reader and the responses
+		opened := make(chan error, 1)
+		go func() { opened <- tr.Open() }()
+		select {
+		case err := <-opened:
+			if err == nil {
+				res.Bad = "Open() on an already open transport with requests in flight returned nil"
+				return res
+			}
+		case <-time.After(50 * time.Millisecond): // still inside Open: the responses are delivered all the same
+		}
+		res.PokedOpen = true
+	}
 	// the response stream and its pieces
 	order := rng.Perm(n)
 	var stream []byte
@@ -287,7 +303,7 @@ func FragmentTrial(n int, seed int64, blockedWriter, reopen bool) *FragResult {
 			}
 		}
 	}
-	res.Shape = fmt.Sprintf("n=%d mode=%d blocked=%v reopened=%v", n, mode, blockedWriter, reopen)
+	res.Shape = fmt.Sprintf("n=%d mode=%d blocked=%v reopened=%v open-poked=%v", n, mode, blockedWriter, reopen, pokeOpen)
 	witness := func(extra string) interface{} {
 		var cl []int
 		for c := range cuts {
